@@ -63,10 +63,12 @@ class WrapFile:
 class WrapStorage(Storage):
     """delegates everything; write-mode file handles are wrapped"""
 
-    def __init__(self, inner, trigger=None, action=None):
+    def __init__(self, inner, trigger=None, action=None, root=None):
         self.inner = inner
         self.trigger = trigger
         self.action = action
+        self.root = root          # the directory the inner LocalStorage was constructed for (None: unknown)
+        self.key_path = None
         self.reset()
 
     def reset(self):
@@ -100,6 +102,8 @@ class WrapStorage(Storage):
             return self.inner.file_handle(key, filename, mode=mode)
         idx = self.fh_started
         self.fh_started += 1
+        if self.root is not None:
+            self.key_path = os.path.join(self.root, key)
         self.hit(('fh_enter', idx))
         real = self.inner.file_handle(key, filename, mode=mode)
         self.cur = WrapFile(self, real, idx, real.name)
@@ -113,7 +117,8 @@ class WrapStorage(Storage):
         return dict(fh_started=self.fh_started, fh_done=self.fh_done, closed=self.closed,
                     w=(cur.w if cur is not None else 0),
                     bytes=(cur.bytes if cur is not None else 0),
-                    path=(cur.path if cur is not None else None))
+                    path=(cur.path if cur is not None else None),
+                    key_dir_exists=(os.path.isdir(self.key_path) if self.key_path is not None else None))
 
 
 def counts_from_log(log):
@@ -241,6 +246,10 @@ def line_k(info, n1, m1):
     if started > done:
         # inside the wrapper's / LocalStorage's file_handle number `done`
         base = 0 if done == 0 else 4 + n1
+        if info.get('key_dir_exists') is not None:
+            # observed, not read off the layout of LocalStorage.file_handle (which a harmless rewrite may change): of the
+            # three micro-steps validate / mkdir / open only mkdir changes anything, and only when the directory is new
+            return (3 if info['key_dir_exists'] else 1) + base
         if func == 'file_handle' and info['file'] == 'storage.py':
             if LM['mkdir_line'] is not None and lineno > LM['mkdir_line']:
                 return 3 + base       # mkdir executed, open not yet
